@@ -938,3 +938,80 @@ Proof.
   intros (V & _) TS. unfold srv1_unpack, srv1_layout. rewrite TS.
   rewrite s1_tm_unpack_layout_app, s1_tm_unpack_layout by exact V. reflexivity.
 Qed.
+
+(* ================= operation histories (objects used again, attributes assigned) ================= *)
+
+(* PacketFieldEnum: after any assignment of val / pfc the object packs its CURRENT value in its
+   CURRENT width (nothing is cached), and equals a fresh field with the same values, whichever way
+   it was built *)
+Theorem pfe_assign_pack f w v : enum_fits w v ->
+  pfe_pack (pfe_apply (pfe_apply f (PfPfc (w * 8))) (PfVal v)) = Ok (enum_layout w v) /\
+  pfe_pack (pfe_apply (pfe_apply f (PfVal v)) (PfPfc (w * 8))) = Ok (enum_layout w v).
+Proof.
+  intros H. cbn [pfe_apply pfe_pfc pfe_val].
+  split; apply (pfe_pack_layout w v H).
+Qed.
+
+Theorem pfe_eq_fresh_ok f w : enum_width_ok w -> pfe_pfc f = w * 8 -> pfe_eq_fresh f = Ok (true, true).
+Proof.
+  intros W E. unfold pfe_eq_fresh. rewrite E, (pfe_new_ok w (pfe_val f) W). cbn [bind].
+  replace (mk_pfe w (pfe_val f)) with f by (destruct f; unfold mk_pfe; cbn in *; congruence).
+  rewrite pfe_eqb_refl. reflexivity.
+Qed.
+
+Theorem pfe_observers_pure f :
+  pfe_apply f PfPack = f /\ pfe_apply f PfLen = f /\ pfe_apply f PfObserve = f /\ pfe_apply f PfEqFresh = f.
+Proof. repeat split. Qed.
+
+(* VerificationParams: the observers do not change the object; a refused edit (no step ID / no
+   failure notice to edit) is an AttributeError and nothing else *)
+Theorem vp_observers_pure v k :
+  vp_apply v VpPack = Ok v /\ vp_apply v VpLen = Ok v /\ vp_apply v (VpVerify k) = Ok v /\
+  vp_apply v VpObserve = Ok v.
+Proof. repeat split. Qed.
+
+Theorem vp_edit_absent v x d :
+  (vp_step v = None -> vp_apply v (VpStepVal x) = Err EAttribute) /\
+  (vp_fn v = None -> vp_apply v (VpFnData d) = Err EAttribute /\ vp_apply v (VpFnCodeVal x) = Err EAttribute).
+Proof.
+  split; [intros E|intros E; split]; cbn [vp_apply]; rewrite E; reflexivity.
+Qed.
+
+(* Service1Tm.pack is repeatable: the second pack returns the same octets and leaves the object as the
+   first one left it *)
+Theorem srv1_pack_twice s b s' : srv1_pack s = Ok (b, s') -> srv1_pack s' = Ok (b, s').
+Proof.
+  unfold srv1_pack. intros H. apply bind_ok in H. destruct H as ([b0 t'] & T & E).
+  cbn [fst snd] in E. injection E as <- <-. cbn [s1_tm s1_vp].
+  unfold tm_pack in T |- *.
+  apply bind_ok in T. destruct T as (h & Hh & T).
+  apply bind_ok in T. destruct T as (sc & Hs & T).
+  apply bind_ok in T. destruct T as (c & Hc & T).
+  injection T as <- <-. cbn [tm_sph tm_sec tm_src tm_crc].
+  rewrite Hh, Hs. cbn [bind]. rewrite Hc. cbn [bind fst snd]. reflexivity.
+Qed.
+
+(* the tc_req_id setter only stores the request ID: the packed report is unchanged (the source data
+   were built by the constructor and are not rebuilt) *)
+Theorem srv1_set_req_pack s r b s' : srv1_pack s = Ok (b, s') ->
+  srv1_pack (set_req s r) = Ok (b, set_req s' r).
+Proof.
+  unfold srv1_pack, set_req. cbn [s1_tm s1_vp]. intros H.
+  apply bind_ok in H. destruct H as ([b0 t'] & T & E). cbn [fst snd] in E. injection E as <- <-.
+  rewrite T. cbn [bind fst snd s1_tm s1_vp]. reflexivity.
+Qed.
+
+(* assignments through pus_tm (sequence count, APID) and the request-ID setter leave the
+   verification parameters, resp. the telemetry object, alone *)
+Theorem srv1_apply_frame s :
+  (forall r s', srv1_apply s (S1SetReq r) = Ok s' -> s1_tm s' = s1_tm s /\ vp_req (s1_vp s') = r /\
+      vp_step (s1_vp s') = vp_step (s1_vp s) /\ vp_fn (s1_vp s') = vp_fn (s1_vp s)) /\
+  (forall v s', srv1_apply s (S1SetSeqCount v) = Ok s' -> s1_vp s' = s1_vp s /\
+      tm_src (s1_tm s') = tm_src (s1_tm s) /\ scount (tm_sph (s1_tm s')) = v) /\
+  (forall v s', srv1_apply s (S1SetApid v) = Ok s' -> s1_vp s' = s1_vp s /\
+      tm_src (s1_tm s') = tm_src (s1_tm s) /\ apid (tm_sph (s1_tm s')) = v).
+Proof.
+  repeat split; cbn [srv1_apply] in *;
+    try (match goal with H : Ok _ = Ok _ |- _ => injection H as <- end; reflexivity).
+  all: cbn [tm_apply bind] in H; injection H as <-; reflexivity.
+Qed.
